@@ -25,6 +25,7 @@ IFACE = 'org.ietf.dtn.btpu.Agent'
 IFNAME = 'veth0'
 MAC_S = '02:00:00:00:00:01'
 MAC_R = '02:00:00:00:00:02'
+MAC_P2 = '02:00:00:00:00:03'
 ETHERTYPE = 0x88b5
 
 _CUR_NET = [None]
@@ -403,7 +404,12 @@ def run_reassembly(params, known):
         mtype = M_END if k == nseg - 1 else M_SEG
         segs.append(('a%d' % k, enc_transfer(mtype, 1, k, bundle[2 * k:2 * k + 2], hints=((0, struct.pack('!I', len(bundle))),))))
     other = bytes(range(0x61, 0x65))
-    osegs = [('b0', enc_transfer(M_SEG, 2, 0, other[0:2])), ('b1', enc_transfer(M_END, 2, 1, other[2:4]))]
+    if params['interleave'] == 'peer2':
+        # the same transfer number as the first transfer, from another peer
+        osegs = [('p2:b0', enc_transfer(M_SEG, 1, 0, other[0:2]), MAC_P2), ('p2:b1', enc_transfer(M_END, 1, 1, other[2:4]), MAC_P2)]
+    else:
+        osegs = [('b0', enc_transfer(M_SEG, 2, 0, other[0:2]), MAC_S), ('b1', enc_transfer(M_END, 2, 1, other[2:4]), MAC_S)]
+    segs = [(label, sdu, MAC_S) for (label, sdu) in segs]
     (part, parts) = (params['part'], params['parts'])
     orders = list(itertools.permutations(range(nseg)))
     idx = -1
@@ -422,9 +428,9 @@ def run_reassembly(params, known):
                 count += 1
                 case = dict(order=[s[0] for s in seq])
                 world = BtpuWorld(dict(role='R'))
-                for (_label, sdu) in seq:
+                for (_label, sdu, src_mac) in seq:
                     world.activate(None)
-                    world.net.inject(IFNAME, frame_for(sdu))
+                    world.net.inject(IFNAME, frame_for(sdu, src=src_mac))
                     world.run_all()
                 got = []
                 for sig in [s for s in world.signals if s[0] == 'recv_bundle_finished']:
@@ -472,6 +478,12 @@ def scenarios(tier):
             name = 'reassembly-%dseg-interleaved-%d/%d' % (nseg, part + 1, parts)
             out.append(dict(name=name, kind='enum', runner='run_reassembly',
                             params=dict(name=name, segments=nseg, interleave=True, part=part, parts=parts), weight=20))
+    for nseg in (3,) + ((4,) if tier == 'thorough' else ()):
+        parts = 1 if nseg == 3 else 4
+        for part in range(parts):
+            name = 'reassembly-%dseg-two-peers-%d/%d' % (nseg, part + 1, parts)
+            out.append(dict(name=name, kind='enum', runner='run_reassembly',
+                            params=dict(name=name, segments=nseg, interleave='peer2', part=part, parts=parts), weight=20))
     return out
 
 
